@@ -15,6 +15,10 @@ CHECKS = {
    text='Generated envelope sequences (well-nested shapes with independent perturbations of ids, counts, control-number reuse, truncation, HL/LX numbering; and arbitrary/mutated header-trailer arrangements, optionally with adversarially chosen trailer counts) are read with X12Reader; for well-nested ones the multiset of (level,code) popped after every segment and after cleanup() must equal an independent recount, for all others no exception and at least one envelope error. Quick ~8.7k sequences, thorough ~70k.',
    design_ref='3/C04', technique='Hypothesis structured generation + mutation; differential against an independent recount model (vpx/envmodel.py)',
    note='Trusted: vpx/envmodel.py. HL-parent verdicts compared only up to the first bad parent / second root HL of a set and not for HL segments lacking HL02; sequences <= ~60 segments; delimiters fixed (C12 varies them).'),
+ 'C11': dict(
+   text='Generated well-nested write histories (every trailer independently supplied right / supplied wrong / omitted where an enclosing trailer or Close() follows; Close() after a drawn prefix; drawn writer and source delimiters, eol, version, LX renumbering) are written with X12Writer; the text must equal, character for character, the model output (non-trailer segments unchanged, trailers regenerated from header ids and true counts), pass an independent envelope audit and be read by X12Reader without envelope errors; ISA offsets must carry the writer delimiters. Quick 4000 histories, thorough 32000.',
+   design_ref='3/C11', technique='Hypothesis-generated call histories checked against a reference model of the writer; round-trip through independent tokeniser and envelope audit',
+   note='Trusted: model() in vpx/props/c11.py, vpx/x12ref.py, vpx/envmodel.py. Histories are well nested by construction (property precondition); values never contain writer delimiters.'),
 }
 for pid in CHECKS:
     ENGINES[0]['serves_properties'].append(pid)
